@@ -21,7 +21,10 @@ def _names(*rowlists, extra=()):
     return H.names_for(*rowlists, extra=extra)
 
 
-def _grid(names):
+def _grid(names, rows=()):
+    for r in rows:
+        if max([abs(x) for x in r["co"].values()] + [abs(r["c"]), r["k"]]) > 20000:
+            return 0
     return 2 if len(names) <= 4 else (1 if len(names) <= 6 else 0)
 
 
@@ -73,7 +76,7 @@ def ev_simplify(S_raw, ctx_raw, via="list", with_ctx=True):
     elif exc == "ValueError":
         h = H.infeas_cert(ctxr + S, names, box=False) or H.feasible_point(ctxr + S, names)
         hints["infeas"] = h or dict(NONE)
-    ev["names"], ev["g"], ev["hints"] = names, _grid(names), hints
+    ev["names"], ev["g"], ev["hints"] = names, _grid(names, S + ctxr + ev["R"]), hints
     return ev
 
 
